@@ -1,11 +1,11 @@
 (* C14 - Spec S of the module system: what the property text demands, with no registers, frames or flags.
-   A module is known by its path; it is Loading while its top-level code runs, Loaded afterwards,
-   Failed when its top-level code ended with an exception.
-     - a module's top-level code runs at most once: it runs only when the path is unknown;
+   A module is known by its path; it is Loading while its top-level code runs, Loaded afterwards; an import
+   whose top-level code ended with an exception leaves NOTHING behind (the path is unknown again).
+     - a module's top-level code runs at most once per successful load, and never while the module is
+       Loaded or Loading: it runs only when the path is unknown;
      - every import of a Loaded module yields the module of that path (identity = path);
      - importing a Loading module is an ImportError (cycle), a missing module the loader's error,
        an uncompilable one an ImportError; nothing is recorded for the latter two;
-     - importing a Failed module is an ImportError (the text does not fix the message: "?" = any);
      - every module starts with all start-up names (the built-ins);
      - globals belong to the module whose source text contains the access (lexical), see ModLang.eval_spec.
    Definitions only. *)
@@ -24,7 +24,7 @@ Inductive svalue :=
 
 Inductive sexc := SXErr (e : error) | SXVal (v : svalue).
 
-Inductive mstatus := Loading | Loaded | Failed.
+Inductive mstatus := Loading | Loaded.
 Record smod := mksmod { s_status : mstatus; s_globals : list (name * svalue) }.
 Record sstate := mksstate {
   s_mods : list (path * smod);
@@ -32,7 +32,7 @@ Record sstate := mksstate {
   s_ran : list path         (* newest first *)
 }.
 
-Definition any_msg : string := "?".
+Definition any_msg : string := "?".   (* wildcard in expected lines: the text does not fix this message *)
 
 Section Spec.
   Variables SrcId Body : Type.
@@ -43,7 +43,6 @@ Section Spec.
   Inductive decision :=
   | DSame                 (* the module of this path, already loaded *)
   | DRaise (e : error)
-  | DFailedBefore         (* the module's body failed earlier: an ImportError, message unspecified *)
   | DRun (b : Body).      (* first import: run the body, then `spec_finish` *)
 
   Definition startup_globals : list (name * svalue) := map (fun b => (b, SBuiltin b)) startup_names.
@@ -57,7 +56,6 @@ Section Spec.
       match s_status m with
       | Loaded => (st, DSame)
       | Loading => (st, DRaise (mkerr KImport [cyc_msg p]))
-      | Failed => (st, DFailedBefore)
       end
     | None =>
       let st1 := mksstate (s_mods st) (p :: s_loads st) (s_ran st) in
@@ -75,7 +73,9 @@ Section Spec.
 
   Definition spec_finish (st : sstate) (p : path) (ok : bool) : sstate :=
     match alookup (s_mods st) p with
-    | Some m => set_mod st p (mksmod (if ok then Loaded else Failed) (s_globals m))
+    | Some m =>
+      if ok then set_mod st p (mksmod Loaded (s_globals m))
+      else mksstate (aremove (s_mods st) p) (s_loads st) (s_ran st)
     | None => st
     end.
 
@@ -92,4 +92,4 @@ Section Spec.
     mksstate [(main_path, mksmod Loading startup_globals)] [] [].
 End Spec.
 
-Arguments DSame {Body}. Arguments DRaise {Body}. Arguments DFailedBefore {Body}. Arguments DRun {Body}.
+Arguments DSame {Body}. Arguments DRaise {Body}. Arguments DRun {Body}.
